@@ -14,8 +14,8 @@ from .. import common, describe, gen, refcodec, shard, walk
 from ..common import Result
 from ..streams import ReadOnlySource, SpyBytesIO, WriteOnlySink
 
-SINK_KINDS = ("bytesio", "write_only", "spy_bytesio", "socket_file", "pipe_file", "asyncio_stream_writer")
-SOURCE_KINDS = ("bytesio", "read_only", "spy_bytesio", "socket_buffered_reader", "pipe_buffered_reader")
+SINK_KINDS = ("bytesio", "write_only", "spy_bytesio", "socket_file", "pipe_file", "asyncio_stream_writer", "disk_file_wb", "disk_file_ab")
+SOURCE_KINDS = ("bytesio", "read_only", "spy_bytesio", "socket_buffered_reader", "pipe_buffered_reader", "disk_file_rb")
 
 
 def _payload_classes() -> list[type]:
@@ -75,6 +75,24 @@ def _write_all(kind: str, writers_and_values: list, prefix: bytes, suffix: bytes
                 w(buf, v)
         buf.write(suffix)
         return buf.getvalue(), [("c-call", name) for name in spy.foreign], -1
+    if kind in ("disk_file_wb", "disk_file_ab"):
+        # regular, seekable files: written from the start, and appended to a file that already holds the leading bytes (in append mode the
+        # position reported by tell() is not where a seek() + write() would land)
+        import tempfile
+
+        with tempfile.TemporaryDirectory(prefix="kv-c07-") as d:
+            path = os.path.join(d, "stream.bin")
+            if kind == "disk_file_ab":
+                with open(path, "wb") as f:
+                    f.write(prefix)
+            with open(path, "wb" if kind == "disk_file_wb" else "ab") as f:
+                if kind == "disk_file_wb":
+                    f.write(prefix)
+                for w, v in writers_and_values:
+                    w(f, v)
+                f.write(suffix)
+            with open(path, "rb") as f:
+                return f.read(), [], -1
     if kind == "write_only":
         sink = WriteOnlySink()
         sink.write(prefix)
@@ -225,6 +243,20 @@ def _read_all(kind: str, readers: list, data: bytes, skip: int, lengths: list[in
             t.join(30)
             a.close()
         return values, None, [("rest", len(rest))]
+    if kind == "disk_file_rb":
+        # a regular, seekable file on disk (BufferedReader over FileIO)
+        import tempfile
+
+        with tempfile.TemporaryDirectory(prefix="kv-c07-") as d:
+            path = os.path.join(d, "stream.bin")
+            with open(path, "wb") as f:
+                f.write(data)
+            with open(path, "rb") as f:
+                f.read(skip)
+                for r in readers:
+                    values.append(r(f))
+                    positions.append(f.tell())
+        return values, positions, events
     if kind == "pipe_buffered_reader":
         rfd, wfd = os.pipe()
 
@@ -333,7 +365,7 @@ def _history(res: Result, h: int, payloads: list, loop, pairs_seen: set, distinc
             case = {"history": h, "messages": [walk.class_path(c) for c, _, _, _ in msgs], "trees": [t for _, _, t, _ in msgs],
                     "prefix": prefix, "suffix": suffix}
             # ---- writing to every sink kind
-            sink_kinds = SINK_KINDS if (h % 4 == 0 or res.tier == "thorough") else SINK_KINDS[:3] + (SINK_KINDS[3 + h % 3],)
+            sink_kinds = SINK_KINDS if (h % 4 == 0 or res.tier == "thorough") else SINK_KINDS[:3] + (SINK_KINDS[3 + h % (len(SINK_KINDS) - 3)],)
             outputs = {}
             for kind in sink_kinds:
                 if rng.random() < 0.3:
@@ -368,7 +400,7 @@ def _history(res: Result, h: int, payloads: list, loop, pairs_seen: set, distinc
                 for cls, _, _, _ in msgs:
                     pairs_seen.add((cls.__name__, "sink:" + kind))
             # ---- reading back from every source kind
-            source_kinds = SOURCE_KINDS if (h % 4 == 0 or res.tier == "thorough") else SOURCE_KINDS[:3] + (SOURCE_KINDS[3 + h % 2],)
+            source_kinds = SOURCE_KINDS if (h % 4 == 0 or res.tier == "thorough") else SOURCE_KINDS[:3] + (SOURCE_KINDS[3 + h % (len(SOURCE_KINDS) - 3)],)
             want_positions = []
             pos = len(prefix)
             for part in ref_parts:
